@@ -305,8 +305,8 @@ int SDreaddata(int32 sdsid, int32 *start, int32 *stride, int32 *end, void *data)
     __CPROVER_ensures((__CPROVER_return_value == FAIL && g_io_calls == 1) ==> (g_var->aid == FAIL || g_var->aid == 0));
 
 /* ---- SDsetchunk ---- */
-/* on this (little-endian) platform a value needs conversion iff its number type is neither
-   native nor little-endian: DFKgetPNSC(type, DF_MT) == DFNTF_PC for every class */
+/* on this (little-endian) platform a value of 2, 4 or 8 bytes needs conversion iff its number type is
+   neither native nor little-endian (DFKgetPNSC(type, DF_MT) == DFNTF_PC for the int and float classes) */
 #define SC_NEEDCONV(var) (((var)->HDFtype & (DFNT_NATIVE | DFNT_LITEND)) == 0)
 #define SC_FLAGS_OK(f) ((f) == HDF_CHUNK || (f) == (HDF_CHUNK | HDF_COMP) || (f) == (HDF_CHUNK | HDF_NBIT))
 /* chunk lengths of the three layouts of the union start at the same address */
@@ -340,11 +340,13 @@ int SDsetchunk(int32 sdsid, HDF_CHUNK_DEF chunk_def, int32 flags)
     __CPROVER_ensures(g_hmc_calls == 1 ==> (g_hmc_len == g_var->HDFsize && g_hmc_ntsize == g_var->HDFsize))
     /* ... namely the dataset's fill value (user-set, else the type's default) in FILE representation:
        converted by DFKconvert(fill, ., type, 1, DFACC_WRITE) when the type needs conversion ... */
-    __CPROVER_ensures((g_hmc_calls == 1 && SC_NEEDCONV(g_var)) ==> (g_conv_calls == 1 && g_conv_ok))
-    __CPROVER_ensures((g_hmc_calls == 1 && SC_NEEDCONV(g_var) && g_b < g_var->HDFsize) ==>
+    __CPROVER_ensures((g_hmc_calls == 1 && g_var->HDFsize >= 2) ==> g_conv_calls == (SC_NEEDCONV(g_var) ? 1 : 0))
+    __CPROVER_ensures((g_hmc_calls == 1 && g_conv_calls == 1) ==> g_conv_ok)
+    __CPROVER_ensures((g_hmc_calls == 1 && g_conv_calls == 1 && g_b < g_var->HDFsize) ==>
                       (g_conv_src_b == g_fill[g_b] && g_hmc_fill_b == g_conv_out[g_b]))
-    /* ... and as it is when the type is native or little-endian */
-    __CPROVER_ensures((g_hmc_calls == 1 && !SC_NEEDCONV(g_var) && g_b < g_var->HDFsize) ==> g_hmc_fill_b == g_fill[g_b])
+    /* ... and as it is when the type is native or little-endian (one-byte types: either way, the
+       DFK layer decides; what HMCcreate gets is the output of the conversion if one was made) */
+    __CPROVER_ensures((g_hmc_calls == 1 && g_conv_calls == 0 && g_b < g_var->HDFsize) ==> g_hmc_fill_b == g_fill[g_b])
     /* the chunk definition is the dataset's shape and the caller's chunk lengths, for EVERY dimension */
     __CPROVER_ensures(g_hmc_calls == 1 ==> g_hmc_ndims == RW_RANK)
     __CPROVER_ensures((g_hmc_calls == 1 && g_d < RW_RANK) ==>
@@ -428,6 +430,7 @@ mk_file(int min_rank)
     return nvars;
 }
 
+static int g_all1;
 static void
 run_rw(int is_read)
 {
@@ -464,28 +467,29 @@ run_rw(int is_read)
     for (int i = 0; i < MAXR; i++)
         if (stride != NULL && i < rk && stride[i] != 1)
             all1 = 0;
-    if (!is_read)
-        H4V_COVER(g_route == R_VARIO && stride != NULL && rk == MAXR, "unit strides at full rank go to NCvario");
     H4V_COVER(g_route == R_GENIO && rk == MAXR && stride[MAXR - 1] != 1 && stride[0] == 1, "strided in the last dimension only");
     H4V_COVER(g_route == R_GENIO && rk >= 2 && stride[0] != 1 && stride[1] == 1, "strided in the first dimension only");
     H4V_COVER(g_route == R_VARIO && stride == NULL, "no stride vector");
-    if (is_read)
-        H4V_COVER(g_route == R_GENIO && all1, "NCgenio with unit strides (read path)");
+    g_all1 = all1;
     H4V_COVER(r == FAIL && g_io_calls == 1, "I/O failure");
     H4V_COVER(r == SUCCEED && rk == 0, "scalar dataset");
-    H4V_CANARY("SD rw end");
 }
 
 void
 h_SDwritedata_route(void)
 {
     run_rw(0);
+    H4V_COVER(g_route == R_VARIO && g_stride != NULL && (int)g_var->assoc->count == MAXR,
+              "unit strides at full rank go to NCvario");
+    H4V_CANARY("SDwritedata end");
 }
 
 void
 h_SDreaddata_route(void)
 {
     run_rw(1);
+    H4V_COVER(g_route == R_GENIO && g_all1, "NCgenio with unit strides (read path)");
+    H4V_CANARY("SDreaddata end");
 }
 
 /* size of one value of an HDF number type (DFKNTsize), 0: not a type SDcreate accepts */
